@@ -52,6 +52,16 @@ def same_state(s, t, names):
     return ok
 
 
+def _drop(t):
+    """release a sketch loaded into shared memory (real mode: frees the segment now rather than at interpreter exit)"""
+    if MODE != "shim":
+        try:
+            t.__del__()
+            t.shm = None
+        except Exception:
+            pass
+
+
 def merges(s, t):
     clear_calls()
     try:
@@ -77,9 +87,13 @@ def _cm_roundtrip(make, names, c0, c1, na, nr, cls_load):
         f = _tmp()
         s.save(f)
         for loader in (CM.load, cls_load):
-            t = loader(f)
-            ok = ok and same_state(s, t, names) and t.n_added() == s.n_added() and t.n_records() == s.n_records() and merges(s, t)
-            _fill_cm(s, c0, c1, na, nr)
+            for shm in (False, True):
+                t = loader(f, shm)
+                ok = ok and same_state(s, t, names) and t.n_added() == s.n_added() and t.n_records() == s.n_records() and merges(s, t)
+                ok = ok and (hasattr(t, "shm") == shm)
+                _fill_cm(s, c0, c1, na, nr)
+                if shm:
+                    _drop(t)
     return ok
 
 
@@ -143,8 +157,11 @@ def check_hll(p: int, seed: int, r0: int, r1: int) -> bool:
             s.registers[(1 << pp) - 1] = r1
             f = _tmp()
             s.save(f)
-            t = HLL.HyperLogLog.load(f)
-            ok = ok and same_state(s, t, ("p", "seed", "m", "alpha", "threshold", "registers")) and merges(s, t)
+            for shm in (False, True):
+                t = HLL.HyperLogLog.load(f, shm)
+                ok = ok and same_state(s, t, ("p", "seed", "m", "alpha", "threshold", "registers")) and merges(s, t) and (hasattr(t, "shm") == shm)
+                if shm:
+                    _drop(t)
     return ok
 
 
@@ -186,6 +203,16 @@ def check_hh_phi(phi: float, c0: int) -> bool:
     """
     return _hh_roundtrip(2, 1, 1, phi, 7, 1, c0, c0, c0, 0)
 
+
+def check_twin_hll_seed_changes(seed: int) -> bool:
+    """
+    pre: 0 <= seed < 2**64
+    post: _ == True
+    """
+    s = HLL.HyperLogLog(7, seed)
+    f = _tmp()
+    s.save(f)
+    return HLL.HyperLogLog.load(f).seed != s.seed      # false claim: must be refuted
 
 # ---------------------------------------------------------------------------------------------- real-library replays
 def _real_cm(make, names, c0, c1, na, nr, cls_load):
